@@ -1,5 +1,7 @@
 import WpModel.Drive.Loop
 import WpModel.Drive.Floats
 import WpModel.Drive.Absolute
+import WpModel.Drive.Positioned
 
-def main : IO Unit := Wp.Drive.runDriver [Wp.Drive.Floats.handle, Wp.Drive.Absolute.handle]
+def main : IO Unit :=
+  Wp.Drive.runDriver [Wp.Drive.Floats.handle, Wp.Drive.Absolute.handle, Wp.Drive.Positioned.handle]
